@@ -184,6 +184,95 @@ def asan_run(run, drv_asan, lines):
     return len(lines)
 
 
+def sweep_lines(tier):
+    """exhaustive small-scope histories: every sequence up to a length over a small alphabet
+    (two peers, session_timeout 1 s, with and without an idle limit of 1)"""
+    import itertools
+    alpha = ["rx:0:g", "rx:1:g", "rx:0:s", "rx:0:h", "rx:1:o", "rel:0", "ack:0", "adv:999",
+             "adv:1", "prep", "notify:0"]
+    maxlen = 3 if tier == "quick" else 5
+    for maxidle in (0, 1):
+        for n in range(1, maxlen + 1):
+            for ops in itertools.product(alpha, repeat=n):
+                # skip sequences that start with an op that cannot do anything yet
+                if ops[0] in ("rel:0", "ack:0", "notify:0"):
+                    continue
+                yield "se 3 1 %d %s" % (maxidle, " ".join(ops))
+
+
+class Sink:
+    """turns per-history results into counts, samples and violations"""
+
+    def __init__(self, run, model, drv):
+        self.run, self.model, self.drv = run, model, drv
+        self.nviol = 0
+        self.reported = set()
+        self.tie_bad = 0
+
+    def feed(self, results, metas):
+        run = self.run
+        for res, m in zip(results, metas):
+            fa = res["facts"]
+            held = any(t.startswith("W[") and t != "W[]" for t in res.get("trace", []))
+            nontriv = (fa.get("sessions", 0) >= 2 and
+                       (fa.get("scan_frees", 0) + fa.get("evictions", 0) > 0 or held))
+            run.count(res["line"], nontriv)
+            run.hist("kind", m.get("kind"))
+            if m.get("kind") == "generated":
+                run.hist("peers", m["npeers"])
+                run.hist("session_timeout", m["timeout"])
+                run.hist("max_idle_sessions", m["maxidle"])
+                run.hist("focus", m["focus"])
+                run.hist("teardown", "explicit" if m["explicit_free"] else "at end")
+            tot = run.cov.setdefault("totals", {})
+            for k in ("scan_frees", "evictions", "teardown_frees", "sessions", "lib_refs", "app_refs"):
+                tot[k] = tot.get(k, 0) + fa.get(k, 0)
+            if res.get("known") and not res["crash"]:
+                f = run.match_known(lambda k: k.get("id") == K_TEARDOWN_REF)
+                if f:
+                    if f["id"] not in run.known_hits:
+                        run.known(f, "e.g. sessions %s of: %s" % (fa.get("leaked_sessions"),
+                                                                  res["line"][:160]))
+                else:
+                    res["bad"].append(("teardown-ref", "coap_free_context with an application "
+                                       "reference outstanding leaves sessions %s allocated"
+                                       % fa.get("leaked_sessions")))
+            failing = res["crash"] or res["bad"]
+            tied = (not res["crash"]) and res.get("tie_diff", -1) >= 0
+            if tied:
+                self.tie_bad += 1
+            if not failing and not tied:
+                if len(run.cov["samples"]) < 5 and nontriv and m.get("kind") != "sweep":
+                    run.sample({"case": res["line"][:300], "events": " ".join(
+                        se_trace.event_log_tokens(res["trace"]))[:300],
+                        "alloc_verdict": res["alloc"]})
+                continue
+            key = "crash" if res["crash"] else (res["bad"][0][0] if res["bad"] else "tie")
+            if key in self.reported or self.nviol >= 4:
+                continue
+            self.reported.add(key)
+            self.nviol += 1
+            small = None
+            try:
+                small = shrink(self.model, self.drv, res)
+            except Exception:
+                small = None
+            rr = res
+            if small and small != res["line"]:
+                r2 = evaluate(self.model, self.drv, [small])[0]
+                if r2["crash"] or r2["bad"] or r2.get("tie_diff", -1) >= 0:
+                    rr = r2
+            if failing:
+                run.violation("C12 violated on the implementation: " + describe(rr),
+                              replay_text(rr, None if rr is res else small), tag=key)
+            else:
+                run.violation("correspondence Sessions.se_step vs libcoap broken (theorems "
+                              "C12_functional_injective / C12_reclaim_rule no longer describe the "
+                              "code): first difference at token %d" % rr["tie_diff"],
+                              replay_text(rr, None if rr is res else small), tag="tie",
+                              no_input=True)
+
+
 def main(run):
     run.cov["trusted_base"] = vlib.TRUSTED_COMMON + [
         "model: coq/Sessions/Sessions.v transcribed by hand from coap_endpoint_get_session, "
@@ -206,79 +295,36 @@ def main(run):
     r = tie.rng_for(run, "c12")
     n = 1500 if run.tier == "quick" else 40000
     corpus = vlib.read_corpus("C12")
-    lines = list(corpus)
-    meta = [{"kind": "corpus"}] * len(corpus)
-    for ln in gen_sessions.boundary_cases():
-        lines.append(ln)
-        meta.append({"kind": "boundary"})
-    for i in range(n):
-        ln, m = gen_sessions.gen_history(r, stale_etag=(i % 5 == 0))
-        m["kind"] = "generated"
-        lines.append(ln)
-        meta.append(m)
     run.cov["corpus_cases"] = len(corpus)
+    sink = Sink(run, model, drv)
 
-    results = evaluate(model, drv, lines)
-    nviol = 0
-    reported = set()
-    tie_bad = 0
-    for res, m in zip(results, meta):
-        fa = res["facts"]
-        nontriv = (fa.get("sessions", 0) >= 2 and
-                   (fa.get("scan_frees", 0) + fa.get("evictions", 0) > 0 or
-                    fa.get("app_refs", 0) > 0 or "W[" in res["out"] and
-                    any(t.startswith("W[") and t != "W[]" for t in res.get("trace", []))))
-        run.count(res["line"], nontriv)
-        run.hist("kind", m.get("kind"))
-        if m.get("kind") == "generated":
-            run.hist("peers", m["npeers"])
-            run.hist("session_timeout", m["timeout"])
-            run.hist("max_idle_sessions", m["maxidle"])
-            run.hist("focus", m["focus"])
-            run.hist("teardown", "explicit" if m["explicit_free"] else "at end")
-        for k in ("scan_frees", "evictions", "teardown_frees", "sessions", "lib_refs", "app_refs"):
-            run.cov.setdefault("totals", {}).setdefault(k, 0)
-            run.cov["totals"][k] += fa.get(k, 0)
-        if res.get("known") and not res["crash"]:
-            f = run.match_known(lambda k: k.get("id") == K_TEARDOWN_REF)
-            if f:
-                run.known(f, "e.g. sessions %s of: %s" % (fa.get("leaked_sessions"), res["line"][:160]))
-            else:
-                res["bad"].append(("teardown-ref", "coap_free_context with an application reference "
-                                   "outstanding leaves sessions %s allocated" % fa.get("leaked_sessions")))
-        failing = res["crash"] or res["bad"]
-        tied = (not res["crash"]) and res.get("tie_diff", -1) >= 0
-        if tied:
-            tie_bad += 1
-        if not failing and not tied:
-            if len(run.cov["samples"]) < 5 and nontriv:
-                run.sample({"case": res["line"][:300], "events": " ".join(
-                    se_trace.event_log_tokens(res["trace"]))[:300], "alloc_verdict": res["alloc"]})
-            continue
-        key = "crash" if res["crash"] else (res["bad"][0][0] if res["bad"] else "tie")
-        if key in reported or nviol >= 4:
-            continue
-        reported.add(key)
-        nviol += 1
-        small = None
-        try:
-            small = shrink(model, drv, res)
-        except Exception:
-            small = None
-        rr = res
-        if small and small != res["line"]:
-            r2 = evaluate(model, drv, [small])[0]
-            if r2["crash"] or r2["bad"] or r2.get("tie_diff", -1) >= 0:
-                rr = r2
-        if failing:
-            run.violation("C12 violated on the implementation: " + describe(rr),
-                          replay_text(rr, None if rr is res else small), tag=key)
-        else:
-            run.violation("correspondence Sessions.se_step vs libcoap broken (theorems "
-                          "C12_functional_injective / C12_reclaim_rule no longer describe the code): "
-                          "first difference at token %d" % rr["tie_diff"],
-                          replay_text(rr, None if rr is res else small), tag="tie", no_input=True)
-    run.cov["tie_disagreements"] = tie_bad
+    def stream():
+        for ln in corpus:
+            yield ln, {"kind": "corpus"}
+        for ln in gen_sessions.boundary_cases():
+            yield ln, {"kind": "boundary"}
+        for i in range(n):
+            ln, m = gen_sessions.gen_history(r, stale_etag=(i % 5 == 0))
+            m["kind"] = "generated"
+            yield ln, m
+        for ln in sweep_lines(run.tier):
+            yield ln, {"kind": "sweep"}
+
+    chunk_l, chunk_m = [], []
+    nsweep = 0
+    for ln, m in stream():
+        chunk_l.append(ln)
+        chunk_m.append(m)
+        nsweep += m["kind"] == "sweep"
+        if len(chunk_l) >= 4000:
+            sink.feed(evaluate(model, drv, chunk_l), chunk_m)
+            chunk_l, chunk_m = [], []
+    if chunk_l:
+        sink.feed(evaluate(model, drv, chunk_l), chunk_m)
+    run.cov["tie_disagreements"] = sink.tie_bad
+    run.cov["exhaustive_sweep"] = {"histories": nsweep, "alphabet": 11,
+                                   "max_length": 3 if run.tier == "quick" else 5,
+                                   "configs": "session_timeout 1 s, max_idle_sessions 0 and 1"}
 
     # sanitizer variant: thorough tier (all of it) and a reduced set in the quick tier
     nas = 250 if run.tier == "quick" else 6000
